@@ -1071,13 +1071,14 @@ Definition lowered_of (prog : list rstmt) : option (store * list rdesc) :=
   match rlower (rbuild prog) with RLOk s ps => Some (s, ps) | RLPanic => None end.
 Definition asgl (l : list Z) : asg := fun v => nth v l 0.
 
-(* D12: Model::modulo(x, Val) — validation rejects the model although x = 1, r = 1 satisfies r = x mod 2 *)
+(* D12 (repaired by d12_validation_operands; about the PRE-REPAIR validator rvalidate_prefix): Model::modulo(x, Val) —
+   validation rejected the model although x = 1, r = 1 satisfies r = x mod 2; the repaired validator accepts it *)
 Lemma mod_const_refuted : exists prog r s ps a,
   kf_mod_const r = true /\ prog = [SB (SInt 0 3); SCall r] /\ lowered_of prog = Some (s, ps) /\
-  rvalidate s ps = Some VInvalidConstraint /\ inst a s /\ rallsatb ps a = true /\ route_sem r 1%nat a = true.
+  rvalidate_prefix s ps = Some VInvalidConstraint /\ rvalidate s ps = None /\ inst a s /\ rallsatb ps a = true /\ route_sem r 1%nat a = true.
 Proof.
   exists [SB (SInt 0 3); SCall (RMod (OV 0%nat) (OC 2))], (RMod (OV 0%nat) (OC 2)). do 2 eexists. exists (asgl [1; 1]).
-  split; [reflexivity|]. split; [reflexivity|]. split; [vm_compute; reflexivity|]. split; [vm_compute; reflexivity|].
+  split; [reflexivity|]. split; [reflexivity|]. split; [vm_compute; reflexivity|]. split; [vm_compute; reflexivity|]. split; [vm_compute; reflexivity|].
   split; [|split; vm_compute; reflexivity].
   intros v Hv. simpl in Hv. destruct v as [|[|v]]; [vm_compute; tauto|vm_compute; tauto|simpl in Hv; lia].
 Qed.
@@ -1094,13 +1095,13 @@ Proof.
   intros v Hv. simpl in Hv. destruct v as [|[|[|v]]]; try (vm_compute; tauto). simpl in Hv; lia.
 Qed.
 
-(* m.add(Val, Val): one registered variable, validation demands two *)
+(* m.add(Val, Val): one registered variable, the PRE-REPAIR validator demanded two; the repaired one accepts *)
 Lemma const_const_refuted : exists prog r s ps a,
   kf_const_const r = true /\ prog = [SCall r] /\ lowered_of prog = Some (s, ps) /\
-  rvalidate s ps = Some VInvalidConstraint /\ inst a s /\ rallsatb ps a = true /\ route_sem r 0%nat a = true.
+  rvalidate_prefix s ps = Some VInvalidConstraint /\ rvalidate s ps = None /\ inst a s /\ rallsatb ps a = true /\ route_sem r 0%nat a = true.
 Proof.
   exists [SCall (RAdd (OC 1) (OC 2))], (RAdd (OC 1) (OC 2)). do 2 eexists. exists (asgl [3]).
-  split; [reflexivity|]. split; [reflexivity|]. split; [vm_compute; reflexivity|]. split; [vm_compute; reflexivity|].
+  split; [reflexivity|]. split; [reflexivity|]. split; [vm_compute; reflexivity|]. split; [vm_compute; reflexivity|]. split; [vm_compute; reflexivity|].
   split; [|split; vm_compute; reflexivity].
   intros v Hv. simpl in Hv. destruct v as [|v]; [vm_compute; tauto|simpl in Hv; lia].
 Qed.
@@ -1849,3 +1850,56 @@ Lemma gcc_len_fixed_witness :
   let m := rbuild_fix2 [SB (SInt 0 3); SB (SInt 0 3); SCall (RGcc [0%nat; 1%nat] [1; 2] [0%nat])] in
   rverr m = true /\ rpanic m = false /\ rverr (rbuild_ext_fixed [SB (SInt 0 3); SB (SInt 0 3); SCall (RGcc [0%nat; 1%nat] [1; 2] [0%nat])]) = false.
 Proof. vm_compute. repeat split; reflexivity. Qed.
+
+(* ------------------------------------------------------------------------------------------ *)
+(* 12. the repair d12_validation_operands (finding D12): validate_constraint_parameters counts operands *)
+
+(* add / sub / mul are never rejected on account of their operands, whatever mix of variables and constants *)
+Lemma add_mul_params_ok : forall s x y r, bad_params s (PB (PAdd x y r)) = false /\ bad_params s (PB (PMul x y r)) = false /\
+  bad_params s (PB (p_sub x y r)) = false.
+Proof. intros; repeat split; reflexivity. Qed.
+(* modulo: rejected exactly when the divisor OPERAND can be zero: a variable (or a view of one) whose domain contains 0,
+   or the constant 0; the dividend plays no part *)
+Lemma mod_params_divisor : forall s x y r, bad_params s (PB (PMod x y r)) = divisor_can_be_zero s y.
+Proof. reflexivity. Qed.
+Lemma mod_const_divisor : forall s x c r, bad_params s (PB (PMod x (VConst c) r)) = (c =? 0).
+Proof. reflexivity. Qed.
+Lemma mod_var_divisor : forall s x d r, bad_params s (PB (PMod x (VVar d) r)) = memZ 0 (sget s d).
+Proof. reflexivity. Qed.
+
+(* the repaired validator only ACCEPTS more: whatever the old one accepted is still accepted *)
+Lemma bad_params_weaker : forall s p, bad_params_prefix s p = false -> bad_params s p = false.
+Proof.
+  intros s p H. destruct p as [q| | | | | | | | | | | | | | | | |]; try reflexivity; try exact H.
+  destruct q; try reflexivity. simpl in *. unfold divisor_can_be_zero, reg_vars3, uvarl in *.
+  destruct (uvar x) as [a|]; destruct (uvar y) as [d|]; simpl in H; try discriminate. exact H.
+Qed.
+Theorem rvalidate_accepts_more : forall s ps, rvalidate_prefix s ps = None -> rvalidate s ps = None.
+Proof.
+  intros s ps H. unfold rvalidate_prefix, rvalidate_with in H. unfold rvalidate.
+  destruct (existsb dempty s); [discriminate|]. destruct (existsb _ s); [discriminate|].
+  destruct (existsb (alldiff_conflict s) ps); [discriminate|].
+  destruct (existsb (bad_params_prefix s) ps) eqn:E; [discriminate|].
+  assert (E2 : existsb (bad_params s) ps = false).
+  { clear H. induction ps as [|p r IH]; [reflexivity|]. simpl in *. apply orb_false_iff in E. destruct E as [E1 E2].
+    rewrite (bad_params_weaker s p E1). apply IH; exact E2. }
+  rewrite E2. reflexivity.
+Qed.
+
+(* the routes of the former classes kf_mod_const / kf_const_const: a call on non-empty operands whose result fits the size limit
+   is accepted unless the divisor can be zero.  Closed sweep over the operand shapes of the former witnesses: *)
+Lemma d12_former_witnesses :
+  forallb (fun r => match lowered_of [SB (SInt 0 3); SB (SInt 1 3); SCall r] with
+                    | Some (s, ps) => match rvalidate s ps, rvalidate_prefix s ps with None, Some VInvalidConstraint => true | _, _ => false end
+                    | None => false end)
+    [RMod (OV 0%nat) (OC 2); RMod (OC 7) (OV 1%nat); RMod (OC 7) (OC 2); RMod (OV 0%nat) (OC (-3));
+     RAdd (OC 1) (OC 2); RSub (OC 1) (OC 2); RMul (OC 1) (OC 2)] = true.
+Proof. vm_compute. reflexivity. Qed.
+(* a zero divisor stays an error: the constant 0, a variable whose domain contains 0 (also under a constant dividend, where the
+   pre-repair validator looked at the RESULT variable instead) *)
+Lemma d12_zero_divisor_rejected :
+  forallb (fun r => match lowered_of [SB (SInt 0 3); SB (SInt 1 3); SCall r] with
+                    | Some (s, ps) => match rvalidate s ps with Some VInvalidConstraint => true | _ => false end
+                    | None => false end)
+    [RMod (OV 0%nat) (OC 0); RMod (OV 1%nat) (OV 0%nat); RMod (OC 7) (OV 0%nat); RMod (OC 7) (OC 0)] = true.
+Proof. vm_compute. reflexivity. Qed.
